@@ -132,6 +132,9 @@ CONTAINER_GRAMMARS = [
      ['go there;\nstay here ;', 'go here']),
     ('start = Record*\nclass Record { name: Word; fields: "{" >> ((Field /? ",") |> `dict`) << "}" }\nField = [Word << ":", Value]\nclass Value { digits: /[0-9]+/ }\nWord = /[a-z]+/\nignore /\\s+/\n',
      [' p {x: 1,\n y: 22}\nq {}', 'p{}']),
+    # instances used as the KEYS of a dict made by inline Python
+    ('start = (Pair*) |> `dict`\nPair = [Key, "=" >> /[0-9]+/]\nclass Key { v: /[a-z]+/ }\nignore /\\s+/\n',
+     ['a=1 b=2', 'a=1\n bc=2']),
     # an instance kept from a lookahead that reaches over line breaks beyond the end of the match
     ('start = Head\nclass Head { name: Word; peek: Expect(Body) }\nclass Body { first: Word; second: Word }\nWord = /[a-z]+/\nignore /\\s+/\n',
      ['head\nfoo\nbar', 'head foo\n  bar baz']),
@@ -148,7 +151,8 @@ def _walk(v, seen=None):
             yield from _walk(x, seen)
     elif isinstance(v, dict):
         seen.add(id(v))
-        for x in v.values():
+        for k, x in v.items():
+            yield from _walk(k, seen)
             yield from _walk(x, seen)
     elif hasattr(v, '_fields') and hasattr(v, '_metadata'):
         seen.add(id(v))
